@@ -5,7 +5,6 @@ import (
 	"bytes"
 	"io"
 	"math/rand/v2"
-	"net"
 	"net/http"
 	"os"
 	"strings"
